@@ -770,7 +770,10 @@ class TaskScenario(ScenarioData):
             effort_before = self.doneEffort
             self.bookResources()
 
-            if self.doneEffort >= effort:
+            # doneEffort is a sum of per-slot float contributions (ten slots of 0.1h add up to
+            # 0.9999999999999999): compare with a tolerance far below the one-second resolution
+            # of reported times, so that no further slot is entered for a rounding residue
+            if self.doneEffort >= effort - 1e-9:
                 # Finished - calculate precise end time within the final slot
                 # and release unused time for other tasks
                 end_date, _seconds_used = self._calculatePreciseEndTimeAndRelease(effort, effort_before, forward)
